@@ -1186,7 +1186,7 @@ class _Abort(BaseException):
 
 
 GRADING_CLAUSES = ("refine_grading/assert-not-children-space-loop", "refine_grading/no-raise", "window",
-                   "only-refines", "well-formed", "history/no-raise")
+                   "only-refines", "well-formed", "history/no-raise", "refine_grading/terminates-on-deep-corner-meshes")
 
 
 def guarded_grading(mesh, sigma, K, max_leaves, max_seconds):
@@ -1240,9 +1240,19 @@ def build_from_spec(spec):
             mesh = RM.MeshParametrized(getattr(P, spec["curve"])())
             for i, ax in spec["idx_ops"]:
                 mesh.refine_axis(list(mesh.leaf_elements)[i], ax)
+            _corner(mesh, spec)
             return mesh, None
         init = Init.from_spec(spec["init"])
-        return _real_replay(init, [op_parse(o) for o in spec["ops"]]), init
+        mesh = _real_replay(init, [op_parse(o) for o in spec["ops"]])
+        _corner(mesh, spec)
+        return mesh, init
+
+
+def _corner(mesh, spec):
+    """spec['corner_depth'] isotropic bisections of the leaf at the corner (t, x) = (0, 0): elements down to 2^-depth"""
+    for _ in range(int(spec.get("corner_depth", 0))):
+        e0 = min(mesh.leaf_elements, key=lambda e: (e.time_interval[0], e.space_interval[0], e.h_t, e.h_x))
+        mesh.refine(e0)
 
 
 def grading_case(spec):
@@ -1276,6 +1286,12 @@ def grading_case(spec):
         return dict(status="failed", n0=len(old), n1=None, bad=[(clause, "refine_grading(sigma={}, K={}) raised {} in {} at `{}` (mesh.py:{})".format(
             sigma, K, tn, fn, text, ln))])
     if status == "not_finished":
+        if spec.get("cap_is_violation"):
+            # deep-corner family: the unchanged tree finishes with a few thousand leaves; the cap (leaves / seconds) is the stated bound
+            return dict(status="failed", n0=len(old), n1=len(mesh.leaf_elements), bad=[(
+                "refine_grading/terminates-on-deep-corner-meshes",
+                "refine_grading(sigma={}, K={}) did not finish within {} leaves / {} s on a mesh refined {} times towards the corner "
+                "({} leaves before the call)".format(sigma, K, spec.get("max_leaves"), spec.get("max_seconds"), spec.get("corner_depth"), len(old)))])
         return dict(status=status, bad=[], n0=len(old), n1=len(mesh.leaf_elements))
     for e in mesh.leaf_elements:
         r = elem_rect(e)
@@ -1416,6 +1432,14 @@ def _grading_task(task):
     exact mesh or on a MeshParametrized curve (float coordinates), then refine_grading for every sigma."""
     kind = task[0]
     out = dict(fails=[], evals=0, not_finished=0, keys=set(), samples=[])
+    if kind == "deep":
+        _, spec = task
+        res = grading_case(spec)
+        out["evals"] += 1
+        for clause, detail in res["bad"]:
+            out["fails"].append(_failure("deep-corner", clause, spec, detail, spec["corner_depth"]))
+        out["deep"] = True
+        return _shrink(out)
 
     def one(group, spec, length):
         res = grading_case(spec)
@@ -1648,12 +1672,23 @@ def _run_grading(chk, prop, tier, seed, pool, log):
     tot = dict(states=dict(evals=0, nf=0), random=dict(evals=0, nf=0))
     keys, samples = set(), []
     t0 = time.time()
-    allt = rtasks + tasks
+    # meshes refined 30 times towards the corner (t, x) = (0, 0) (elements of size 2^-30: the window test compares h_t / K with
+    # h_x ** sigma at magnitudes down to 1e-19); here -- and only here -- not finishing within the cap is a violation
+    dtasks = []
+    for src_ in (dict(curve="UnitSquare", idx_ops=[]), dict(curve="Circle", idx_ops=[]), dict(init=FAMILIES["1x1-open"].spec(), ops=[]),
+                 dict(init=FAMILIES["1x1-glued"].spec(), ops=[])):
+        for sigma in (1,):       # isotropic refinement is already graded for sigma = 1 (for 1.5 / 2 the unchanged tree needs > 1e5 leaves)
+            dtasks.append(("deep", dict(src_, kind="grading", sigma=sigma, K=4, prior=[], corner_depth=30 if tier == "quick" else 34,
+                                        cap_is_violation=True, max_leaves=40000, max_seconds=120, wf_limit=0)))
+    allt = rtasks + tasks + dtasks
     # one fresh process per task: the recorded history of a case (its `prior` exponents) is then the whole history of
     # refine_grading calls of its process, so that a failure that needs earlier calls is reproducible by its replay
     gpool = multiprocessing.get_context("fork").Pool(NPROC, maxtasksperchild=1) if pool else None
     for out in (gpool.imap_unordered(_grading_task, allt) if gpool else map(_grading_task, allt)):
         fd.merge_fails(out["fails"])
+        if out.get("deep"):
+            tot.setdefault("deep", dict(evals=0, nf=0))["evals"] += out["evals"]
+            continue
         which = "random" if out["samples"] else "states"
         tot[which]["evals"] += out["evals"]
         tot[which]["nf"] += out["not_finished"]
@@ -1680,6 +1715,11 @@ def _run_grading(chk, prop, tier, seed, pool, log):
                         n_rand, steps, seed, caps["max_seconds"], tot["random"]["nf"]),
                     "float meshes: no exception, window, only-refines and the structural part of well_formed; exact meshes: "
                     "full well_formed (up to 3000 leaves)", samples[:3])
+    fd.mark_checked("deep-corner", GRADING_CLAUSES, tot.get("deep", dict(evals=0))["evals"])
+    chk.add_bounded("C19/bounded/deep-corner", tot.get("deep", dict(evals=0))["evals"], len(dtasks),
+                    "4 meshes (unit square, circle, exact 1x1 open / glued) refined {} times towards the corner (0, 0), sigma = 1 (the mesh is already in the window: the call has nothing to do); "
+                    "cap 40000 leaves / 120 s".format(dtasks[0][1]["corner_depth"]),
+                    "no exception, termination within the cap (a violation on this family), window for every leaf, only refines", [])
     chk.notes.append("C19 explorer: not_finished = {} (states) + {} (random)".format(tot["states"]["nf"], tot["random"]["nf"]))
     log("grading: {} + {} evaluations, not finished {} + {}, {:.1f}s".format(
         tot["states"]["evals"], tot["random"]["evals"], tot["states"]["nf"], tot["random"]["nf"], time.time() - t0))
